@@ -501,7 +501,10 @@ class Unit:
         )
 
     def copy(self, *, deep=False):
-        expr = str(self.expr)
+        # the expression itself (SymPy expressions are immutable), not its
+        # string: Unit() answers a string from the registry's memo, which holds
+        # the unit of the current table, not necessarily this one
+        expr = self.expr
         base_value = copy.deepcopy(self.base_value)
         base_offset = copy.deepcopy(self.base_offset)
         # SymPy expressions are immutable; the copy must keep unyt's dimension
